@@ -79,7 +79,7 @@ func (p *Printer) typeSpec(f *Field, ind int) (tag string, attrs []string, body 
 		if f.Enum.Prefix != "" {
 			attrs = append(attrs, fmt.Sprintf("enum.prefix = %q", f.Enum.Prefix))
 		}
-		return "enum", attrs, func() { p.enumBody(&Enum{Opts: f.Enum.Opts, OptDesc: f.Enum.OptDesc}, ind) }
+		return "enum", attrs, func() { p.enumBody(&Enum{Opts: f.Enum.Opts, OptDesc: f.Enum.OptDesc, OptNum: f.Enum.OptNum}, ind) }
 	case "array", "map":
 		blockName := map[string]string{"array": "items", "map": "itemSchema"}[f.Kind]
 		if p.chance(25) || f.Item.Kind == "array" || f.Item.Kind == "map" {
@@ -180,7 +180,14 @@ func (p *Printer) enumBody(e *Enum, ind int) {
 		p.line(ind, "prefix = %q", e.Prefix)
 	}
 	for _, o := range e.Opts {
-		if d := e.OptDesc[o]; d != "" {
+		if n, ok := e.OptNum[o]; ok {
+			p.line(ind, "option %s {", o)
+			if d := e.OptDesc[o]; d != "" {
+				p.line(ind+1, "| %s", d)
+			}
+			p.line(ind+1, "number = %d", n)
+			p.line(ind, "}")
+		} else if d := e.OptDesc[o]; d != "" {
 			p.line(ind, "option %s | %s", o, d)
 		} else {
 			p.line(ind, "option %s", o)
